@@ -19,7 +19,7 @@ Earlies == {"none", "m1", "q", "l", "bin"}
 FlagEarlies == {"none", "m1", "q", "l"}
 Exits == {"0", "1", "255", "kill"}
 Threads == {1, 4}
-PreGlobs == {"none", "sel", "unsel", "negsel", "negunsel", "selz", "unselz", "negunselz"}
+PreGlobs == {"none", "sel", "unsel", "negsel", "negunsel", "selz", "unselz", "negunselz", "pairneg", "pairpos"}
 Xforms == {"echo", "swap", "fixed", "nothing"}
 Codecs == {"gzip", "bzip2", "xz"}
 \* (timing, tail): the long tail only makes sense for a command that gets to the end of its output
@@ -63,7 +63,7 @@ ZipFam(e, t) ==
   {S("z", c, "echo", "0", "first", "0", "after", tl, e, "none", t, cd, "valid")
      : c \in SmallContents, tl \in {"short", "long"}, cd \in Codecs}
   \cup {S("z", c, "echo", "0", "first", "0", "after", "short", e, "none", t, cd, zs)
-     : c \in SmallContents, cd \in Codecs, zs \in (IF e = "none" THEN {"unrec", "nocmd", "noisy"} ELSE {"unrec", "noisy"})}
+     : c \in SmallContents, cd \in Codecs, zs \in (IF e = "none" THEN {"unrec", "unrecuc", "nocmd", "noisy"} ELSE {"unrec", "unrecuc", "noisy"})}
   \cup (IF e # "none" THEN {} ELSE
         {S("z", c, "echo", "small", "last", "1", "after", tl, e, "none", t, cd, "trunc")
            : c \in SmallContents, tl \in {"short", "long"}, cd \in Codecs}
